@@ -67,8 +67,11 @@ def strip_path(name):
     return name
 
 
+OUT = VERIF if os.path.abspath(REPO) == '/repo' else '/tmp/pyvc-scratch-out'     # runs on scratch copies never touch /verif/evidence
+
+
 def write_replay(prop, proof, obligation, inputs, detail, solver_output=None, tag=''):
-    d = os.path.join(VERIF, 'replays')
+    d = os.path.join(OUT, 'replays')
     os.makedirs(d, exist_ok=True)
     body = dict(property=prop, proof=proof.name, obligation=obligation, inputs=api.jsonable(inputs) if inputs is not None else None,
                 detail=detail, solver_output=solver_output,
@@ -77,7 +80,7 @@ def write_replay(prop, proof, obligation, inputs, detail, solver_output=None, ta
     path = os.path.join(d, f"{prop}-{proof.name.replace('/', '_')}-{h}.json")
     with open(path, 'w') as f:
         json.dump(body, f, indent=1, default=str)
-    return os.path.relpath(path, VERIF)
+    return os.path.relpath(path, VERIF) if OUT == VERIF else path
 
 
 def do_replay(path):
@@ -352,8 +355,8 @@ def run_property(prop, tier, seed):
         wall_s=round(wall, 2),
         violations=len(violations),
     )
-    os.makedirs(os.path.join(VERIF, 'evidence'), exist_ok=True)
-    with open(os.path.join(VERIF, 'evidence', f"{prop}.json"), 'w') as f:
+    os.makedirs(os.path.join(OUT, 'evidence'), exist_ok=True)
+    with open(os.path.join(OUT, 'evidence', f"{prop}.json"), 'w') as f:
         json.dump(evidence, f, indent=1, default=str)
     print(f"{prop} tier={tier}: obligations={total} discharged={discharged} undecided={len(undecided)} "
           f"violations={len(violations)} bounded_cases={sum(b['cases'] for b in bounded)} wall={wall:.1f}s exit={exit_code}")
